@@ -596,6 +596,9 @@ case('C10', "C10-seed6", "mutant", 'seeded (round 3): deprecated referrer option
 case('C11', "C11-seed5", "mutant", 'seeded (round 3): host entry for a mirror built from the upstream entry (keeps CredHost)',
      patch="seeded/C11-5/patch.diff", expect=[('C11.R10', 'hostNew', 'template of a new host entry')])
 
+case('C16', "C16-seed3", "mutant", 'seeded: platform digest cache keyed by list digest and plat.String(), which drops os.version',
+     patch="seeded/C16-3/patch.diff", expect=[('C16.R6', 'getPlatformDigest', 'key rendered by Platform.String')])
+
 # thirty unexported functions the rules know by name, renamed throughout (resolved by role, internal/rules/roles.go)
 for _p in ["C%02d" % i for i in range(1, 21)]:
     case(_p, _p + "-b-rename", "benign", "thirty unexported anchor functions renamed throughout the module", patch="selftest/variants/all-b-rename.diff")
